@@ -189,7 +189,7 @@ func baselineKey(kind string) Val {
 }
 
 var gridPositions = []string{"attr", "attr-vm", "kwarg", "dictarg", "subdict", "elem", "append", "listassign", "listkw", "mapval", "mapval-ow",
-	"mapassign", "set_field", "set_field_rep", "extend", "insert", "iadd", "iaddf"}
+	"mapassign", "set_field", "set_field_rep", "extend", "insert", "iadd", "iaddf", "proto3opt"}
 
 func pv(v Val) *Val { return &v }
 
@@ -243,6 +243,16 @@ func gridCase(kind, pos string, nv namedVal) *Case {
 		ops = []Op{newAll(vStr(r), vList(b0, b1)), {Op: "view", F: r}, {Op: "bad", F: "iadd", V: pv(vList(v))}}
 	case "iaddf":
 		ops = []Op{newAll(vStr(r), vList(b0, b1)), {Op: "bad", F: "iadd__" + r, V: pv(vList(v))}}
+	case "proto3opt":
+		if kind != "int32" && kind != "string" {
+			return nil
+		}
+		o := "o_" + kind
+		z := vI(0)
+		if kind == "string" {
+			z = vStr("")
+		}
+		ops = []Op{newAll(), {Op: "set", F: o, V: pv(v)}, {Op: "set", F: o, V: pv(z), Star: true}, {Op: "rt"}, {Op: "set", F: o, V: pv(vNone)}}
 	default:
 		return nil
 	}
@@ -615,7 +625,7 @@ func genOp(t *rapid.T, pInvalid float64) Op {
 		return Op{Op: "elem", A: sel(), F: f, K: pv(genKey(t, tMapKV[f][0], pInvalid))}
 	case r < 67:
 		f := pickStr(t, tLists)
-		return Op{Op: "setidx", A: sel(), F: f, I: vk.Uniform(t, 6) - 3, V: pv(genElem(t, f, 1, pInvalid))}
+		return Op{Op: "setidx", A: sel(), F: f, I: vk.Uniform(t, 4) - 2, V: pv(genElem(t, f, 1, pInvalid))}
 	case r < 75:
 		f := pickStr(t, tLists)
 		return Op{Op: "append", A: sel(), F: f, V: pv(genElem(t, f, 1, pInvalid)), Star: vk.Chance(t, 0.5)}
@@ -719,7 +729,9 @@ func TestPropHistory(t *testing.T) {
 				vStr("ri"), vList(vI(int64(10+i)), vI(20)),
 				vStr("rt"), vList(vDict(vStr("s"), vStr("e0")), vDict()),
 				vStr("msi"), vDict(vStr("a"), vI(1)),
-				vStr("mst"), vDict(vStr("a"), vDict(vStr("i"), vI(3)))))})
+				vStr("mst"), vDict(vStr("a"), vDict(vStr("i"), vI(3))),
+				vStr("rs"), vList(vStr("x")), vStr("re"), vList(vI(1)), vStr("ru"), vList(vI(7)),
+				vStr("mis"), vDict(vI(1), vStr("one")), vStr("mbb"), vDict(vBool(true), vBytes("t")), vStr("mue"), vDict(vI(0), vStr("BLUE"))))})
 		}
 		n := 3 + vk.Uniform(t, maxOps)
 		for len(ops) < n {
